@@ -193,6 +193,11 @@ func runCtx(m *model.Model, s *ob.Set) {
 					case "(*Decimal).SetPrec":
 						okP = okP || derivesFromCtxField(m, c.Args[1], "prec")
 					}
+					// c.apply(new(Decimal)): apply is what gives a Decimal the context's mode and
+					// precision (its own obligation, CTX apply/…)
+					if cal == applyFn && len(c.Args) == 2 && m.RefOf(c.Args[1]).Fresh && !m.RefOf(c.Args[1]).Unknown && m.RefOf(c.Args[1]).Params == 0 {
+						okM, okP = true, true
+					}
 				}
 			}
 			s.Check(okM && okP, R+"(T6)", name, pos, "fresh Decimal with the context's mode and precision", "c.New() must return a Decimal carrying c.mode and c.prec")
